@@ -1384,6 +1384,13 @@ func (w *_unionAssembler) AssembleKey() datamodel.NodeAssembler {
 		schemaType: schemaTypeString,
 		val:        reflect.New(goTypeString).Elem(),
 	}
+	w.curKey.finish = func() error {
+		// A union holds exactly one member: refuse a second entry (be it the same member again or another one).
+		if haveIdx, _ := unionMember(w.val); haveIdx >= 0 {
+			return schema.ErrNotUnionStructure{TypeName: w.schemaType.Name(), Detail: "a union must have exactly one entry"}
+		}
+		return nil
+	}
 	return &w.curKey
 }
 
